@@ -529,12 +529,16 @@ func nodesFor(o *core.Options) []e2.Node {
 
 func Run(o *core.Options) int {
 	r := core.NewReport(o, "exploration",
-		"selected models x every tuple subset |T|<=2 x requests = (object,relation in {r0,r1,parent,member}) x AuthZEN-expressible subjects {user:a, user:*, group:1, doc:2} x request contexts {none,1,20 when T has a condition}. Per request: Evaluation vs native Check of subject 'type:id', resource 'type:id', action=relation, context=context (class T/F/ERR); the same through an Evaluations request without items; with conditions also Evaluation with subject/resource/action properties x (expected native context subject_x/resource_x/action_x). Per world: Evaluations batches in the variants items-complete, permitted-first, denied-first, top-level-decoys, subject/resource/action/context-from-top, items-state-differences-only x semantics {no options, execute_all, deny_on_first_deny, permit_on_first_permit}: response list vs the native Checks of the harness-resolved items, cut by the harness' own reading of the semantic. SubjectSearch vs ListUsers (filter type user/group/doc) and ResourceSearch vs ListObjects as sets. non-trivial = native answer not F / not empty / list containing T or ERR; distinct by (endpoint, model, tuples, request)")
+		"selected models x every tuple subset |T|<=2 x requests = (object,relation in {r0,r1,parent,member}) x AuthZEN-expressible subjects {user:a, user:*, group:1, doc:2} x request contexts {none,1,20 when T has a condition}. Per request: Evaluation vs native Check of subject 'type:id', resource 'type:id', action=relation, context=context (class T/F/ERR); the same through an Evaluations request without items. Per world: Evaluations batches in the variants items-complete, permitted-first, denied-first, top-level-decoys, subject/resource/action/context-from-top, items-state-differences-only x semantics {no options, execute_all, deny_on_first_deny, permit_on_first_permit}: response list vs the native Checks of the harness-resolved items, cut by the harness' own reading of the semantic. SubjectSearch vs ListUsers (filter type user/group/doc) and ResourceSearch vs ListObjects as sets. Property pass (third pass): the same models with the condition declared over parameter P in {x, subject_x, resource_x, action_x} (cx(P:int):=P<10, one store per P; stored tuple contexts use P) x every tuple subset |T|<=2 containing a conditioned tuple that does not store P x the requests whose REFERENCE answer (harness fixpoint semantics, not the server) differs between P absent/1/20 x carrier vectors: property x on subject, on resource, on action each absent/1/20 (27 combinations) without the request-level key, plus request-level context key P in {1,20} with at most one property source present (14 precedence vectors; 41 in all, 19 for ActionSearch which has no action). Expected = native call with the harness-mapped context {subject_x, resource_x, action_x from the properties, request-level keys unchanged and winning}. Endpoints: Evaluation; Evaluations without items (carriers at top level), Evaluations with the carriers as top-level defaults and 5 items (inherit all / restate subject, resource, action with their own rotated properties / restate the context) with the semantic rotated over the vectors, Evaluations with every (request, vector) as a complete item per semantic (short-circuit semantics ordered for the longest prefix); SubjectSearch (properties on the subject filter, resource, action) vs ListUsers; ResourceSearch (subject, resource filter, action) vs ListObjects; ActionSearch (subject, resource) vs the set of relations of the resource type whose native Check allows. non-trivial = native answer not F / not empty / list containing T or ERR; distinct by (endpoint, model, tuples, request)")
 	r.Assume("memory datastore; experimental flag 'authzen'; first pass: AuthZEN requests carry no model header, so the latest model (the model under test) is used on both sides; second pass (3 models in quick, 30 in thorough): a permissive model is written after the model under test, AuthZEN requests pin the model under test with the Openfga-Authorization-Model-Id header and the native requests name it",
 		"universe 2 users/2 groups/2 docs; rewrites of depth<=1; one condition cx(x:int):=x<10",
 		"userset subjects (group:1#member, ...) cannot be expressed in AuthZEN (subject.id must not contain '#') and are outside the request space",
 		"an item-level error of Evaluations is a response with decision=false and context.error; it is compared with a native Check error (class ERR)",
-		"quick: requests address doc:1 / group:1 (symmetric universe); a deviation must repeat in at least 4 of 5 re-executions")
+		"quick: requests address doc:1 / group:1 (symmetric universe); a deviation must repeat in at least 4 of 5 re-executions",
+		"property pass: one property key (x) per source and one condition parameter per model; the mapping source.properties.k -> source_k and 'request context wins' is the harness' reading of the AuthZEN mapping documented in pkg/server/authzen.go; a stated item-level subject/resource/action replaces the top-level default together with its properties; requests whose reference answer does not depend on the parameter are left to the first pass (no properties)")
+	r.Set("property_pass_condition_parameters", params)
+	r.Set("property_pass_carrier_vectors", len(vectors(true)))
+	r.Set("property_pass_carrier_vectors_action_search", len(vectors(false)))
 	if o.Replay != "" {
 		return replay(o, r)
 	}
